@@ -34,6 +34,7 @@ import (
 	_ "verifsim/shapes/kv"
 	_ "verifsim/shapes/nested"
 	_ "verifsim/shapes/nestedb"
+	_ "verifsim/shapes/opt4"
 	_ "verifsim/shapes/pair"
 	_ "verifsim/shapes/person"
 	_ "verifsim/shapes/rep3"
